@@ -423,6 +423,10 @@ impl Scenario for Throttle {
         // its messages over while the first one's are stuck above the high-water mark, and the
         // connection is closed straight away
         v.push(json!({"bound": 16, "high": 128, "low": 0, "stall": 260, "grants": [33], "close_behind": true, "late_p2": true}));
+        // ... and the transport takes everything again just before: "writable" and the close
+        // request are found in one wake-up, the buffer is empty when the close is taken but the
+        // channels have not been listened to again yet
+        v.push(json!({"bound": 16, "high": 128, "low": 0, "stall": 260, "grants": [33], "close_behind": true, "late_p2": true, "grant_then_close": true}));
         // fine mode: publishers may refill their queues while the I/O thread is draining them
         v.push(json!({"bound": 1, "high": 64, "low": 0, "stall": 260, "grants": [33], "fine": true}));
         // ... with the high-water mark out of reach: no throttle cycle re-registers the queues, a
@@ -478,6 +482,7 @@ impl Scenario for Throttle {
             cfg.no_grants = true;
         }
         let late_p2 = p["late_p2"] == true;
+        let grant_then_close = p["grant_then_close"] == true;
         let close_behind = p["close_behind"] == true;
         if close_behind {
             // the peer trickles: 33 bytes at a time, to the end
@@ -605,6 +610,15 @@ impl Scenario for Throttle {
                 if late_p2 {
                     for a in actors {
                         ctx.join(a);
+                    }
+                    if grant_then_close {
+                        ctx.hold_io(true);
+                        ctx.force_grant();
+                        let me = ctx.me();
+                        ctx.spawn("release", move |ctx| {
+                            ctx.wait_blocked(me);
+                            ctx.hold_io(false);
+                        });
                     }
                     let r = conn.close();
                     ctx.log(format!("close -> {}", res(&r)));
@@ -897,10 +911,14 @@ impl Scenario for Tuned {
                     }
                 }
                 if let Ok(ch) = &top {
+                    // bodies of exactly two and three payload limits (no frame may carry a byte
+                    // more than the limit) and of three limits plus one byte
                     let payload = (fmax as usize).min(9000).saturating_sub(8);
-                    let body = vec![7u8; 3 * payload + 1];
-                    let r = ch.basic_publish("", Publish::new(&body, "k"));
-                    ctx.log(format!("publish({}) -> {}", body.len(), res(&r)));
+                    for len in [2 * payload, 3 * payload, 3 * payload + 1] {
+                        let body = vec![7u8; len];
+                        let r = ch.basic_publish("", Publish::new(&body, "k"));
+                        ctx.log(format!("publish({}) -> {}", body.len(), res(&r)));
+                    }
                 }
                 let t0 = ctx.now_ms();
                 ctx.log(format!("idle from {}", t0));
